@@ -282,6 +282,7 @@ def oracle(kind, args, out, eps):
         M = [r_*r_ + i_*i_ - j_*j_ - k_*k_, 2*(i_*j_ + r_*k_), 2*(i_*k_ - r_*j_), 2*(i_*j_ - r_*k_), r_*r_ - i_*i_ + j_*j_ - k_*k_, 2*(j_*k_ + r_*i_),
              2*(i_*k_ + r_*j_), 2*(j_*k_ - r_*i_), r_*r_ - i_*i_ - j_*j_ + k_*k_]
         chk("AffineSpace::rotate(q) = (LinearSpace3(q), 0)", out[86:98], M + [0.0, 0.0, 0.0])
+        chk("AffineSpace2f == is false / != is true against every single-entry perturbation", out[98:100], [0, 6])
     elif kind == "o2":
         # closest orthogonal matrix = orthogonal polar factor, in closed form for 2x2:
         # det > 0: the rotation (M + cof M)/|.|; det < 0: mirror the first column, take the rotation, mirror it back
@@ -347,11 +348,36 @@ def oracle(kind, args, out, eps):
     elif kind == "look":
         eye, pt, up = args[0:3], args[3:6], args[6:9]
         L, p = cols(out[0:9], 3), out[9:12]
-        Z = unit([a - b for a, b in zip(pt, eye)]); U = unit(cross(Z, up)); V = cross(U, Z)
+        dv = [a - b for a, b in zip(pt, eye)]
+        Z = unit(dv); U = unit(cross(Z, up)); V = cross(U, Z)
+        kz = max(1.0, (norm(pt) + norm(eye)) / norm(dv))             # cancellation in point - eye
+        ku = kz / max(1e-6, norm(cross(Z, up)) / norm(up))          # normalize(Z x up) for a pitched camera
         chk("lookat origin = eye", p, eye)
-        chk("lookat Z || point - eye", L[2], Z)
-        chk("lookat U = normalize(Z x up)", L[0], U)
-        chk("lookat V = U x Z", L[1], V)
+        chk("lookat Z || point - eye", L[2], Z, kz)
+        chk("lookat U = normalize(Z x up)", L[0], U, ku)
+        chk("lookat V = U x Z", L[1], V, ku)
+        chk("lookat axes orthonormal", flat(mm(tr(L), L)), flat(ident(3)), ku)
+        chk("lookat orientation: det(U,V,Z) = -1 (viewer's right/up/forward in a right-handed world)", [det(L)], [-1.0], ku)
+    elif kind == "ocx":
+        e = args[0:12]; L9 = e[0:9]
+        chk("operator<<(LinearSpace3) prints vx vy vz", out[0:9], L9); chk("operator<<(AffineSpace) prints l.vx l.vy l.vz p", out[9:21], e)
+        chk("operator L*() views the linear part", out[21:30], L9); chk("operator const L*() const views the linear part", out[30:39], L9)
+        chk("LinearSpace3<V>(LinearSpace3<other element type>(m)) = m", out[39:48], L9); chk("AffineSpace<V>(AffineSpace<other element type>(a)) = a", out[48:60], e)
+        chk("== is false / != is true against every single-entry perturbation (LinearSpace3 9, AffineSpace 12)", out[60:64], [0, 9, 0, 12])
+    elif kind == "ocx2":
+        e = args[0:6]
+        chk("operator<<(LinearSpace2)", out[0:4], e[0:4]); chk("operator<<(AffineSpace 2D)", out[4:10], e)
+        chk("operator L*() views the linear part (2D)", out[10:14], e[0:4]); chk("operator const L*() const (2D)", out[14:18], e[0:4])
+        chk("LinearSpace2<V>(LinearSpace2<other element type>(m)) = m", out[18:22], e[0:4]); chk("AffineSpace 2D element-type conversion", out[22:28], e)
+        chk("== is false / != is true against every single-entry perturbation (LinearSpace2 4, AffineSpace2 6)", out[28:32], [0, 4, 0, 6])
+    elif kind == "ocq":
+        chk("operator<<(Quaternion) prints r i j k", out[0:4], args[0:4]); chk("quaternion == / != against single-entry perturbations", out[4:6], [0, 4])
+    elif kind == "f2":
+        x, y, r_ = args
+        c, s_ = math.cos(r_), math.sin(r_)
+        chk("AffineSpace2::scale(v) = (diag v, 0)", out[0:6], [x, 0, 0, y, 0, 0]); chk("AffineSpace2::translate(v) = (1, v)", out[6:12], [1, 0, 0, 1, x, y])
+        chk("AffineSpace2::rotate(r) = ([[c,-s],[s,c]], 0)", out[12:18], [c, s_, -s_, c, 0, 0])
+        chk("LinearSpace2::scale(v) = diag v", out[18:22], [x, 0, 0, y]); chk("LinearSpace2::rotate(r)", out[22:26], [c, s_, -s_, c])
     elif kind == "q":
         a, b, v = args[0:4], args[4:8], args[8:11]
         ab, cj, rc, nm, av = out[0:4], out[4:8], out[8:12], out[12:16], out[16:19]
@@ -415,6 +441,9 @@ def kappa_of(kind, args):
     if kind == "ol3": return cond(cols(args[9:18], 3))
     if kind == "oa3": return cond(cols(args[12:21], 3)) * 4.0
     if kind == "oq": return 8.0
+    if kind == "look":
+        dv = [a - b for a, b in zip(args[3:6], args[0:3])]
+        return 4.0 * max(1.0, (norm(args[3:6]) + norm(args[0:3])) / norm(dv)) / max(1e-6, norm(cross(unit(dv), args[6:9])) / norm(args[6:9]))
     if kind == "l3": return cond(cols(args[0:9], 3))
     if kind == "a3": return cond(cols(args[0:9], 3))
     if kind == "a2": return cond(cols(args[0:4], 2))
@@ -467,6 +496,12 @@ def gen_unit_quat(r, dominant=None):
             q = [x * 0.4 for x in q]; q[dominant] = r.choice([-1, 1]) * (1.0 + abs(q[dominant]))
         n = math.sqrt(dot(q, q))
         if n > 0.3: return [x / n for x in q]
+
+
+def perp_any(r, n):
+    while True:
+        t = cross(n, [r.gauss(0, 1) for _ in range(3)])
+        if norm(t) > 0.2: return unit(t)
 
 
 def special_matrix(r, n, family):
@@ -624,6 +659,9 @@ def make_cases(ctx):
         cases.append(("oq", qa + qb + [float(r.choice([-3, -2, 2, 3, 5])) if integer else (grid(r, 0.5, 3) * r.choice([-1, 1]))] + gen_vec(r, 3, integer), integer))
         if integer:
             cases.append(("ocv", [float(x) for x in r.sample(range(-9, 10), 12)], True))
+            cases.append(("ocx", [float(x) for x in r.sample(range(-9, 10), 12)], True))
+            cases.append(("ocx2", [float(x) for x in r.sample(range(-9, 10), 6)], True))
+            cases.append(("ocq", [float(x) for x in r.sample(range(-9, 10), 4)], True))
     # orthogonal(): M = R(a) diag(s1,s2) R(b), half of them times a reflection (det < 0: the mirror wrapper), plus pure
     # rotations / reflections (fixed points); condition <= 64, pairwise distinct entries
     def R2(t): return [[math.cos(t), math.sin(t)], [-math.sin(t), math.cos(t)]]
@@ -657,6 +695,18 @@ def make_cases(ctx):
             b = unit([x * r.choice([1, -1]) + 0.01 * r.gauss(0, 1) for x in a]); s = r.choice([1, -1]); b = [s * x for x in b]
         t = r.choice([0.0, 1.0, 0.5, 0.25]) if i % 7 == 0 else grid(r, 0, 1, 256)
         cases.append(("sl", [t] + a + b, False))
+    for it in range(ctx.pick(40, 400)):
+        cases.append(("f2", gen_vec(r, 2, it % 2 == 0) + [r.uniform(-2 * math.pi, 2 * math.pi)], False))
+    # lookat with pitched cameras: world up = +-y or +-z, the view direction pitched up/down by 0..85 degrees around a random heading
+    for it in range(ctx.pick(60, 600)):
+        upw = r.choice([[0.0, 1.0, 0.0], [0.0, -1.0, 0.0], [0.0, 0.0, 1.0], [0.0, 0.0, -1.0]])
+        pitch = math.radians(r.choice([0, 5, 30, 45, 60, 80, 85]) * r.choice([1, -1])); head = r.uniform(0, 2 * math.pi)
+        side = perp_any(r, upw)
+        fwd = unit(cross(upw, side))
+        hdir = [math.cos(head) * a + math.sin(head) * b for a, b in zip(side, fwd)]
+        view = [math.cos(pitch) * h + math.sin(pitch) * u for h, u in zip(hdir, upw)]
+        eye = gen_vec(r, 3, False); dist = grid(r, 0.5, 4) or 1.0
+        cases.append(("look", eye + [e + dist * v for e, v in zip(eye, view)] + upw, False))
     cases += guard_cases(r)
     cases += special_cases(r, ctx.pick(3, 20))
     for _ in range(ctx.pick(100, 1000)):
@@ -671,10 +721,10 @@ def make_cases(ctx):
     return cases
 
 
-KINDS = {"f": {"ol2", "oa2", "ol3", "oa3", "oq", "ocv", "o2", "l2", "r2", "a2", "l3", "a3", "rot", "frm", "look", "q", "qf", "qr", "ypr", "sl"},
-         "fa": {"ol3", "oa3", "l3", "a3", "rot", "frm", "look"},
-         "d": {"oq", "o2", "q", "qf", "qr", "ypr", "sl"},
-         "dd": {"l2", "a2", "ol2", "oa2", "l3", "a3", "rot", "frm", "look", "ol3", "oa3"}}
+KINDS = {"f": {"ocx", "ocx2", "ocq", "f2", "ol2", "oa2", "ol3", "oa3", "oq", "ocv", "o2", "l2", "r2", "a2", "l3", "a3", "rot", "frm", "look", "q", "qf", "qr", "ypr", "sl"},
+         "fa": {"ocx", "ol3", "oa3", "l3", "a3", "rot", "frm", "look"},
+         "d": {"ocq", "oq", "o2", "q", "qf", "qr", "ypr", "sl"},
+         "dd": {"ocx", "ocx2", "f2", "l2", "a2", "ol2", "oa2", "l3", "a3", "rot", "frm", "look", "ol3", "oa3"}}
 FLAVOURS = ("f", "fa", "d", "dd")
 FLAVOUR_NAME = {"f": "float", "fa": "float, padded vec3fa", "d": "double", "dd": "double linear/affine (vec2d, vec3d)"}
 
@@ -753,11 +803,10 @@ def regenerate(ctx):
 
 
 def declared_scan(ctx, jsons):
-    """every function/operator/constructor/conversion the three headers declare must be covered or explicitly excluded"""
+    """enumerate, from the clang AST of this run, every function/operator/constructor/conversion the three headers declare"""
     sys.path.insert(0, os.path.join(ctx.verif, "tools", "cxx2coq"))
     sys.path.insert(0, os.path.dirname(os.path.abspath(__file__)))
-    import importlib, opscan, coverage
-    importlib.reload(coverage)
+    import opscan
     from astutil import load_docs
     sys.setrecursionlimit(20000)
     inst, line = {}, {}
@@ -768,19 +817,54 @@ def declared_scan(ctx, jsons):
         finally:
             try: os.remove(js)
             except OSError: pass
-    unknown = [k for k in inst if k not in coverage.COVER and k not in coverage.EXCLUDE]
-    dead = [k for k in coverage.COVER if k in inst and inst[k] == 0]
-    gone = [k for k in list(coverage.COVER) + list(coverage.EXCLUDE) if k not in inst]
-    used_kinds = set(re.findall(r"\b([a-z]+[0-9]?[a-z]*)\b", " ".join(coverage.COVER.values())))
-    for k in unknown:
-        ctx.broken.append("declared in the headers (line %s) but neither covered nor excluded in props/C06/coverage.py: %s" % (line[k], k))
-    for k in dead:
-        ctx.broken.append("covered declaration is no longer instantiated by tools/cxx2coq/inst/*.cpp: %s" % k)
-    ctx.cov["declarations"] = {"declared": len(inst), "covered": len([k for k in inst if k in coverage.COVER]),
-                               "excluded": {k: coverage.EXCLUDE[k] for k in inst if k in coverage.EXCLUDE},
-                               "unknown": unknown, "not_instantiated": dead, "listed_but_no_longer_declared": gone}
-    if not jsons:
-        ctx.broken.append("declaration scan did not run")
+    ctx.c06_decl = (inst, line)
+    # fail closed right away (before anything else can mask it) on new and on vanished / re-signed declarations
+    import importlib, coverage
+    importlib.reload(coverage)
+    for k in sorted(inst, key=lambda k: (k.split()[0], line[k] or 0)):
+        if k not in coverage.COVER and k not in coverage.EXCLUDE:
+            ctx.broken.append("inventory: new declaration (line %s) neither covered nor excluded in props/C06/coverage.py: %s" % (line[k], k))
+    for k in list(coverage.COVER) + list(coverage.EXCLUDE):
+        if inst and k not in inst:
+            ctx.broken.append("inventory: table entry whose declaration vanished or changed its signature: %s" % k)
+    for b in ctx.broken:
+        if b.startswith("inventory:"): ctx.log(b)
+    if not jsons or not inst:
+        ctx.broken.append("inventory: the declaration scan of LinearSpace.h / AffineSpace.h / Quaternion.h did not run")
+
+
+def inventory(ctx, kinds_hist):
+    """COVER / EXCLUDE (props/C06/coverage.py) against the declarations of this run and the cases executed in this run"""
+    import importlib, coverage
+    importlib.reload(coverage)
+    inst, line = getattr(ctx, "c06_decl", ({}, {}))
+    thms = set(ctx.cov.get("theorems", []))
+    all_kinds = set(k for v in KINDS.values() for k in v)
+    rows = {}
+    for k in sorted(inst, key=lambda k: (k.split()[0], line[k] or 0)):
+        if k in coverage.EXCLUDE:
+            rows[k] = {"line": line[k], "status": "out of scope", "reason": coverage.EXCLUDE[k]}
+            continue
+        if k not in coverage.COVER:
+            rows[k] = {"line": line[k], "status": "UNKNOWN"}        # already reported by declared_scan
+            continue
+        c = coverage.COVER[k]
+        ex = {fl: sum(kinds_hist.get(fl + ":" + op, 0) for op in c["ops"]) for fl in FLAVOURS}
+        ex = {fl: n for fl, n in ex.items() if n}
+        rows[k] = {"line": line[k], "status": "covered", "instantiated_bodies": inst[k], "ops": c["ops"], "executed_cases": ex, "theorems": c["theorems"]}
+        if inst[k] == 0:
+            ctx.broken.append("inventory: covered declaration is no longer instantiated by tools/cxx2coq/inst/*.cpp: %s" % k)
+        if not ex:
+            ctx.broken.append("inventory: covered declaration executed by no case in this run (ops %s): %s" % (c["ops"], k))
+        for op in c["ops"]:
+            if op not in all_kinds: ctx.broken.append("inventory: unknown harness op %r listed for %s" % (op, k))
+        for t in c["theorems"]:
+            if thms and t not in thms: ctx.broken.append("inventory: theorem %s listed for '%s' does not exist in coq/C06/Properties*.v" % (t, k))
+    for b in ctx.broken:
+        if b.startswith("inventory: covered") or b.startswith("inventory: theorem") or b.startswith("inventory: unknown"): ctx.log(b)
+    ctx.cov["inventory"] = {"declared": len(inst), "covered": sum(1 for r in rows.values() if r["status"] == "covered"),
+                            "out_of_scope": sum(1 for r in rows.values() if r["status"] == "out of scope"),
+                            "unknown": sum(1 for r in rows.values() if r["status"] == "UNKNOWN"), "declarations": rows}
 
 
 def run(ctx):
@@ -811,7 +895,7 @@ def run(ctx):
             return
         impl[fl] = res
     # model readings
-    mq = {"f": runall(model, ["q", "f"], lambda c: c[2] and c[0] in ("l2", "l3", "a2", "a3", "q", "ol2", "oa2", "ol3", "oa3", "oq"))[1],
+    mq = {"f": runall(model, ["q", "f"], lambda c: c[2] and c[0] in ("l2", "l3", "a2", "a3", "q", "ol2", "oa2", "ol3", "oa3", "oq"))[1],  # (f2 needs sin/cos: float reading only)
           "d": runall(model, ["q", "d"], lambda c: c[2] and c[0] in ("q", "oq"))[1]}
     mf = {"f": runall(model, ["f", "f"], lambda c: True)[1], "d": runall(model, ["f", "d"], lambda c: c[0] in KINDS["d"] and c[0] != "o2")[1]}
     # LinearSpace2<vec2d>::orthogonal(): the float model read without rounding to binary32 is the double computation
@@ -919,6 +1003,7 @@ def run(ctx):
                 if have.get(b, 0) == 0 and not (b.startswith("marginal") and fl == "d" and gname.startswith("quat-from-matrix: v")):
                     ctx.broken.append("guard not exercised: %s -- bucket '%s' (%s)" % (gname, b, fl))
     ctx.cov["cases_by_flavour_and_kind"] = kinds_hist
+    inventory(ctx, kinds_hist)
     ctx.cov["comparison"] = stats
     ctx.cov["worst_error_over_tolerance_per_identity"] = {k: round(v, 4) for k, v in sorted(worst_ratio.items())}
     ctx.cov["guard_margin"] = "a branch guard (slerp d<0, d>0.9995; quaternion-from-matrix trace>=0, vx.x>=max(vy.y,vz.z), vy.y>=vz.z; frame dx choice, |up.N|>0.99f; orthogonal det<0) is marginal when |g - t| <= 64*eps*max(1,sum|terms|): the oracle then accepts the reference of either side (best of both) and a model/implementation difference is not an alarm"
